@@ -397,3 +397,31 @@ func H_C08_wrongKind(i int) {
 		verifAssert(strings.Contains(err.Error(), ":1") || strings.Contains(err.Error(), "line 1"), "C08: the error for MRO text presented as a value carries a source position")
 	}
 }
+
+// H_C08_lineAfterString(n): a string literal which spans n + 1 lines (raw line
+// breaks inside the quotes) is followed, later in the file, by a mistake: a
+// syntax error (kind 0) or a call to a stage which does not exist (kind 1).
+//
+//	C08: the error carries the position of the mistake: the physical line it
+//	     is on.
+func H_C08_lineAfterString(n, kind int) {
+	lit := "first"
+	for i := 0; i < n; i++ {
+		lit += "\nmore"
+	}
+	src := "stage A(\n    in  int x,\n    src comp \"" + lit + "\",\n)\n\n"
+	line := 6 + n
+	if kind == 0 {
+		src += "call A(\n    x = = 1,\n)\n"
+		line++ // the stray '=' is on the second line of the call
+	} else {
+		src += "call MISSING(\n    x = 1,\n)\n"
+	}
+	var parser Parser
+	_, _, _, err := parser.ParseSourceBytes([]byte(src), "/m/l.mro", nil, false)
+	verifCover("mistake after a multi-line string compiled")
+	verifAssert(err != nil, "the mistake is reported")
+	if err != nil {
+		verifAssert(strings.Contains(err.Error(), "/m/l.mro:"+c07Itoa(line)), "C08: an error after a string literal which spans several lines carries the physical line of the mistake")
+	}
+}
